@@ -55,11 +55,17 @@ def run(ctx) -> None:
     I = make_interp(ctx.p)
     sc = consumer_scenarios(I)
     for mode in ("first_find", "all_finds"):
-        full = {r for s in sc if s.mode == mode and not s.only_addr and s.path.kind == "return" for r in s.reported(I)}
-        addr = {r for s in sc if s.mode == mode and s.only_addr and s.path.kind == "return" for r in s.reported(I)}
+        full = {r for s in sc if s.mode == mode and not s.only_addr and s.path.kind == "return" for r in map(_shape, s.reported(I))}
+        addr = {r for s in sc if s.mode == mode and s.only_addr and s.path.kind == "return" for r in map(_shape, s.reported(I))}
         ok = len(full) == 1 and len(addr) == 1 and list(addr)[0] == list(full)[0] + ".split('::')[0]" and \
             list(full)[0].endswith(".group(0)")
         ctx.check(ok, "C07.P4.address-is-prefix-of-match", f"CompleteConsumer[{mode}]",
                   f"addr={sorted(addr)} full={sorted(full)}",
                   "address-only value is M.group(0).split('::')[0] for the same match M whose group(0) is reported "
                   "in full-text mode")
+
+
+def _shape(expr: str) -> str:
+    """the provenance expression of a reported value with the search arguments elided"""
+    import re as _re
+    return _re.sub(r"\((pattern=|<REGEX>).*?timeout=[^)]*\)", "(...)", expr)
